@@ -75,9 +75,22 @@ def rowOk (t : String) (v : Nat) (row : List IdEnt) : Bool :=
           knownCollisionSets.contains (t, v, i, classesAtRow row i))
 
 /-- `d` is a dict over exactly the ids of `ents`, each key mapped to one of the classes carrying it:
-what any evaluation of the comprehension l.667-669 must produce. -/
+what any evaluation of the comprehension l.667-669 must produce (ids are compared first so that the
+kernel compares class names only where the ids agree). -/
 def dictOk (d : List (Int × String)) (ents : List (String × Int)) : Bool :=
-  (d.all fun kv => ents.contains (kv.2, kv.1)) && (ents.all fun e => d.any fun kv => kv.1 == e.2)
+  (d.all fun kv => ents.any fun e => e.2 == kv.1 && e.1 == kv.2) &&
+    (ents.all fun e => d.any fun kv => kv.1 == e.2)
+
+/-- `d` agrees, as a map id → class, with the comprehension l.667-669 evaluated over the registered
+classes `ents` in SOME iteration order `perm` of the set. -/
+def IsComprehensionOf (d : List (Int × String)) (ents : List (String × Int)) : Prop :=
+  ∃ perm : List (String × Int), perm.Perm ents ∧ ∀ i, dictGet (buildDict perm) i = dictGet d i
+
+/-- position-wise conjunction over two lists of the same length -/
+def zipAll {α β : Type} (p : α → β → Bool) : List α → List β → Bool
+  | [], [] => true
+  | a :: as, b :: bs => p a b && zipAll p as bs
+  | _, _ => false
 
 /-- run-length grouped table → one entry per version -/
 def expandGroups {α : Type} (g : List (List Nat × α)) : List (Nat × α) :=
